@@ -129,6 +129,18 @@ def aggregate_scenarios(w: PolWorld):
     return out
 
 
+def _walk_all(t):
+    if isinstance(t, Term):
+        yield t
+        for x in list(t.args) + list(t.kwargs.values()) + ([t.recv] if t.recv is not None else []):
+            yield from _walk_all(x)
+    elif isinstance(t, (list, tuple)):
+        for x in t:
+            yield from _walk_all(x)
+    elif isinstance(t, SymNS) and t.recv is not None:
+        yield from _walk_all(t.recv)
+
+
 def window_scenarios(w: PolWorld):
     """window functions with `arrange=`: with and without partition, 0 / 1 / 2 positional arguments.  The value must have been
     ordered: without partition the result carries a `sort_by` of its own (computed on sorted input, then brought back into table
@@ -152,8 +164,15 @@ def window_scenarios(w: PolWorld):
             top_sorts = [x for x, inside in _ancestors_fn(t, lambda x: x.fn == "sort_by") if not any(i.startswith("impl:") for i in inside)]
             overs = [x for x, _ in _ancestors_fn(t, lambda x: x.fn == "over")]
             if part:
-                ok = bool(overs) and all(x.kwargs.get("order_by") is not None for x in overs)
-                why = "with a partition the ordering must reach `.over(.., order_by=..)`"
+                def has_col(t, name):
+                    return any(isinstance(x, Term) and x.fn.split(".")[-1] == "col" and x.args[:1] == (name,) for x in _walk_all(t))
+
+                ok = bool(overs) and all(
+                    x.kwargs.get("order_by") is not None and has_col(x.kwargs.get("order_by"), "o") and not has_col(x.kwargs.get("order_by"), "g")
+                    and has_col(list(x.args) + [x.kwargs.get("partition_by")], "g") and not has_col(list(x.args) + [x.kwargs.get("partition_by")], "o")
+                    for x in overs
+                )  # fmt: skip
+                why = "with a partition `.over(<partition_by= columns>, order_by=<arrange= keys>)` must receive both in their slots"
             else:
                 ok = bool(top_sorts) or any(x.kwargs.get("order_by") is not None for x in overs)
                 why = "without a partition the value must be computed on sorted input and brought back into table order (sort_by on the value)"
